@@ -184,6 +184,12 @@ Definition dispatch_misc (kind : string) (args : list string) : option string :=
                 | None => Some BADARGS end
     | _ => Some BADARGS end
   else if String.eqb kind "upnploc" then Some (out3 "ret" "-" "-")
+  else if String.eqb kind "seq" then
+    (* a history of frames to one handler: every step returns, whatever state the earlier steps
+       left (the state parameters of the processor theorems are universally quantified) *)
+    match args with
+    | [_; _; fs] => Some (out3 (join "," (map (fun _ => "ret") (Text.split ","%char fs))) "-" "-")
+    | _ => Some BADARGS end
   else if String.eqb kind "other" then
     match args with
     | [_; pid; h] =>
